@@ -153,6 +153,7 @@ Inductive instr :=
 | IMovx (signed : bool) (dsz ssz : Z) (dst : Z) (src : operand)
 | ILea (sz : Z) (dst : Z) (src : operand)
 | IXchg (sz : Z) (a b : operand)
+| IXadd (sz : Z) (dst src : operand)            (* src is a register *)
 | IPush (sz : Z) (src : operand)
 | IPop (sz : Z) (dst : operand)
 | ICallRel (target : Z)
@@ -167,6 +168,7 @@ Inductive instr :=
 | ILoop (k : Z) (target : Z)                  (* 0 loop, 1 loope, 2 loopne *)
 | IJcxz (csz : Z) (target : Z)                (* jcxz / jecxz / jrcxz by count-register size *)
 | IShift (o : shop) (sz : Z) (dst : operand) (cnt : operand)    (* cnt: OImm n, or OReg 1 = cl *)
+| IShift1 (o : shop) (sz : Z) (dst : operand)                   (* D0 / D1: the count 1 is implicit (no imm8) *)
 | IShxd (isl : bool) (sz : Z) (dst : operand) (src : Z) (cnt : operand)   (* shld / shrd dst, src-register, imm8|cl *)
 | IMul (sz : Z) (src : operand)
 | IImul1 (sz : Z) (src : operand)
@@ -354,6 +356,15 @@ Definition step (m : mode) (next : Z) (i : instr) (s : xstate) : outcome :=
   | IXchg sz a b =>
       ret (obind (rd_op sz a s) (fun va => obind (rd_op sz b s) (fun vb =>
            obind (wr_op sz a vb s) (fun s1 => wr_op_at sz b va s s1))))
+  | IXadd sz dst src =>
+      (* SDM: TEMP := SRC + DEST; SRC := DEST; DEST := TEMP -- the source is written first, the destination last
+         (one register for both: it ends up with the sum); a memory destination's address uses the old registers *)
+      match rd_op sz dst s, rd_op sz src s with
+      | Some a, Some b =>
+          let '(r, f') := alu AAdd sz a b false f in
+          ret (option_map (fun s' => set_fl s' f') (obind (wr_op sz src a s) (fun s1 => wr_op_at sz dst r s s1)))
+      | _, _ => XFault
+      end
   | IPush sz src => ret (obind (rd_op sz src s) (fun v => push m sz v s))
   | IPop sz dst => ret (obind (pop m sz s) (fun '(v, s1) => wr_op sz dst v s1))
   | ICallRel t => of_opt (option_map (fun s' => (s', t)) (push m w next s))
@@ -391,6 +402,13 @@ Definition step (m : mode) (next : Z) (i : instr) (s : xstate) : outcome :=
           let '(r, f') := shift o sz a c f in
           ret (option_map (fun s' => set_fl s' f') (wr_op sz dst r s))
       | _, _ => XFault
+      end
+  | IShift1 o sz dst =>
+      match rd_op sz dst s with
+      | Some a =>
+          let '(r, f') := shift o sz a 1 f in
+          ret (option_map (fun s' => set_fl s' f') (wr_op sz dst r s))
+      | None => XFault
       end
   | IShxd isl sz dst src cnt =>
       (* SDM: count masked to 5 (6) bits; count 0 = no operation; count > operand size: destination and
